@@ -266,3 +266,132 @@ Proof.
   - split; [apply I' | exact Hn].
 Qed.
 End Duplicate.
+
+(* ------------------------------------------------------------------ any number of copies *)
+(* the general form: among the copies of one target on in-sync shards, all scraped three times, one is best - normal
+   before in_transfer, then the lower load, then the front position.  One garbage-collection walk, in whatever order,
+   leaves exactly that copy on the in-sync shards (C05_handover_completes and C06_duplicate_resolved_in_one_cycle are
+   the cases of two copies) *)
+Section Copies.
+Variables (o : opts) (active : list (N * N)) (w : nat) (h : N) (cw : cstat) (p : plan).
+Hypothesis Hact : is_active active h = true.
+Hypothesis Hnd : nodup_plan p.
+Hypothesis Hwok : si_ok (nth_si p w) = true.
+Hypothesis Hw : afind h (scr_of (nth_si p w)) = Some cw.
+Hypothesis Hwt : (min_wait <= c_times cw)%N.
+
+(* w's copy is better than copy c on shard j *)
+Definition worse (j : nat) (c : cstat) : Prop :=
+  (min_wait <= c_times c)%N /\
+  ((c_state c = InTransfer /\ c_state cw = Normal) \/
+   (c_state c = c_state cw /\
+    (load_of o (nth_si p w) < load_of o (nth_si p j) \/ (load_of o (nth_si p w) = load_of o (nth_si p j) /\ (w < j)%nat)))).
+Hypothesis Hbest : forall j c, j <> w -> si_ok (nth_si p j) = true -> afind h (scr_of (nth_si p j)) = Some c -> worse j c.
+
+Record KInv (q : plan) : Prop := {
+  ki_nd : nodup_plan q;
+  ki_len : length q = length p;
+  ki_flags : forall j, si_ok (nth_si q j) = si_ok (nth_si p j) /\ load_of o (nth_si q j) = load_of o (nth_si p j);
+  ki_w : afind h (scr_of (nth_si q w)) = Some cw;
+  ki_sub : forall j, afind h (scr_of (nth_si q j)) = afind h (scr_of (nth_si p j)) \/ afind h (scr_of (nth_si q j)) = None;
+}.
+
+Lemma tstate_cases (s : tstate) : s = Normal \/ s = InTransfer.
+Proof. destruct s; auto. Qed.
+
+Lemma keep_best q : KInv q -> gc_keep o active q w h cw = true.
+Proof.
+  intros I. unfold gc_keep. rewrite Hact. cbn [negb].
+  destruct (N.ltb_spec (c_times cw) min_wait); [reflexivity|].
+  apply negb_true_iff. apply not_true_iff_false. intros Hex. apply existsb_exists in Hex. destruct Hex as [j [_ Hj]].
+  apply andb_true_iff in Hj. destruct Hj as [Hj Hjust]. apply andb_true_iff in Hj. destruct Hj as [Hnj Hokj].
+  apply negb_true_iff, Nat.eqb_neq in Hnj. unfold gc_justifies in Hjust.
+  destruct (afind h (scr_of (nth_si q j))) as [c|] eqn:Ec; [|discriminate].
+  destruct (ki_sub q I j) as [E|E]; rewrite Ec in E; [|discriminate]. symmetry in E.
+  rewrite (proj1 (ki_flags q I j)) in Hokj.
+  destruct (Hbest j c Hnj Hokj E) as [_ Hb].
+  rewrite (proj2 (ki_flags q I j)), (proj2 (ki_flags q I w)) in Hjust.
+  apply andb_true_iff in Hjust. destruct Hjust as [_ Hjust].
+  apply orb_true_iff in Hjust. destruct Hjust as [H1|H1].
+  - apply andb_true_iff in H1. destruct H1 as [A B].
+    destruct (tstate_cases (c_state cw)) as [Ew|Ew], (tstate_cases (c_state c)) as [Ecs|Ecs]; rewrite Ew, Ecs in *; cbn in A, B; try discriminate.
+    destruct Hb as [[X Y]|[X _]]; congruence.
+  - apply andb_true_iff in H1. destruct H1 as [A B].
+    assert (Es : c_state cw = c_state c).
+    { destruct (tstate_cases (c_state cw)) as [Ew|Ew], (tstate_cases (c_state c)) as [Ecs|Ecs]; rewrite Ew, Ecs in *; cbn in A; try discriminate; reflexivity. }
+    destruct Hb as [[X Y]|[_ Hord]]; [congruence|].
+    apply orb_true_iff in B. destruct B as [B|B].
+    + apply Z.ltb_lt in B. lia.
+    + apply andb_true_iff in B. destruct B as [B1 B2]. apply Z.eqb_eq in B1. apply Nat.ltb_lt in B2. lia.
+Qed.
+
+Lemma drop_other q j c : KInv q -> j <> w -> si_ok (nth_si q j) = true -> afind h (scr_of (nth_si q j)) = Some c ->
+  gc_keep o active q j h c = false.
+Proof.
+  intros I Hj Hok E. unfold gc_keep. rewrite Hact. cbn [negb].
+  destruct (ki_sub q I j) as [E'|E']; rewrite E in E'; [|discriminate]. symmetry in E'.
+  rewrite (proj1 (ki_flags q I j)) in Hok.
+  destruct (Hbest j c Hj Hok E') as [Ht Hb].
+  destruct (N.ltb_spec (c_times c) min_wait) as [Hlt|_]; [lia|].
+  apply negb_false_iff. apply existsb_exists. exists w. split.
+  - apply In_indices. rewrite (ki_len q I). now apply lt_of_ok.
+  - rewrite (proj1 (ki_flags q I w)), Hwok. assert (En : Nat.eqb w j = false) by (apply Nat.eqb_neq; congruence).
+    rewrite En. cbn [negb andb]. unfold gc_justifies. rewrite (ki_w q I).
+    assert (Hle : (min_wait <=? c_times cw)%N = true) by now apply N.leb_le.
+    rewrite Hle. cbn [andb]. rewrite (proj2 (ki_flags q I j)), (proj2 (ki_flags q I w)).
+    destruct Hb as [[X Y]|[X Hord]].
+    + rewrite X, Y. reflexivity.
+    + rewrite X. assert (Hs : tstate_eqb (c_state cw) (c_state cw) = true) by (destruct (c_state cw); reflexivity).
+      rewrite Hs. cbn [andb]. apply orb_true_iff. right.
+      destruct Hord as [Hlt|[Heq Hlt]].
+      * assert (H1 : (load_of o (nth_si p w) <? load_of o (nth_si p j)) = true) by now apply Z.ltb_lt. now rewrite H1.
+      * assert (H1 : (load_of o (nth_si p w) =? load_of o (nth_si p j)) = true) by now apply Z.eqb_eq.
+        assert (H2 : (w <? j)%nat = true) by now apply Nat.ltb_lt. rewrite H1, H2. now rewrite orb_true_r.
+Qed.
+
+Lemma gc_shard_KInv q j : KInv q -> KInv (gc_shard o active q j).
+Proof.
+  intros I. destruct (si_ok (nth_si q j)) eqn:Hokj; [|unfold gc_shard; now rewrite Hokj].
+  pose proof (lt_of_ok q j Hokj) as Hj.
+  constructor.
+  - apply gc_shard_nodup, I.
+  - unfold gc_shard. rewrite Hokj, upd_length. apply I.
+  - intros i. destruct (gc_shard_flags o active q j i) as (A & _ & B & C). split; [rewrite A; apply I|].
+    unfold load_of. rewrite B, C. apply (proj2 (ki_flags q I i)).
+  - rewrite (scr_gc_shard o active q j w Hj Hokj). destruct (Nat.eqb_spec j w) as [->|]; [|apply I].
+    apply afind_filter_nodup; [apply (ki_nd q I) | apply I | now apply keep_best].
+  - intros i. rewrite (scr_gc_shard o active q j i Hj Hokj). destruct (Nat.eqb_spec j i) as [->|]; [|apply I].
+    destruct (afind h (filter _ _)) as [c|] eqn:E; [|now right].
+    apply afind_filter_nodup_inv in E; [|apply (ki_nd q I)]. destruct E as [E _].
+    destruct (ki_sub q I i) as [E'|E']; [left; congruence|congruence].
+Qed.
+
+Lemma gc_fold_single : forall l q, KInv q ->
+  KInv (fold_left (gc_shard o active) l q) /\
+  forall j, j <> w -> si_ok (nth_si p j) = true -> (In j l \/ afind h (scr_of (nth_si q j)) = None) ->
+            afind h (scr_of (nth_si (fold_left (gc_shard o active) l q) j)) = None.
+Proof.
+  induction l as [|i r IH]; intros q I; cbn [fold_left].
+  - split; [exact I|]. intros j _ _ [[]|H]. exact H.
+  - destruct (IH (gc_shard o active q i) (gc_shard_KInv q i I)) as [I' Hr]. split; [exact I'|].
+    intros j Hj Hok H. apply Hr; [exact Hj|exact Hok|].
+    destruct (Nat.eq_dec i j) as [->|Hij].
+    + right. assert (Hokq : si_ok (nth_si q j) = true) by (rewrite (proj1 (ki_flags q I j)); exact Hok).
+      rewrite (scr_gc_shard o active q j j (lt_of_ok q j Hokq) Hokq), Nat.eqb_refl.
+      destruct (afind h (filter _ _)) as [c|] eqn:E; [|reflexivity].
+      apply afind_filter_nodup_inv in E; [|apply (ki_nd q I)]. destruct E as [E Hkeep]. cbn [fst snd] in Hkeep.
+      rewrite (drop_other q j c I Hj Hokq E) in Hkeep. discriminate.
+    + destruct H as [[Hh|Hin]|Hnone]; [congruence | now left | right].
+      destruct (si_ok (nth_si q i)) eqn:Hoki; [|unfold gc_shard; now rewrite Hoki].
+      rewrite (scr_gc_shard o active q i j (lt_of_ok q i Hoki) Hoki). apply Nat.eqb_neq in Hij. now rewrite Hij.
+Qed.
+
+Theorem gc_leaves_the_best_copy :
+  afind h (scr_of (nth_si (gc o active p) w)) = Some cw /\
+  forall j, j <> w -> si_ok (nth_si p j) = true -> afind h (scr_of (nth_si (gc o active p) j)) = None.
+Proof.
+  assert (I : KInv p) by (constructor; auto).
+  destruct (gc_fold_single (indices p) p I) as [I' Hn]. split; [apply I'|].
+  intros j Hj Hok. apply Hn; [exact Hj|exact Hok|]. left. apply In_indices. now apply lt_of_ok.
+Qed.
+End Copies.
